@@ -260,7 +260,13 @@ func evalC19Hist(c c19Hist, o *Obs) error {
 		model = append(model, tc)
 		init = append(init, tc)
 	}
-	cs := coinset.NewCoinSet(init)
+	// the initial coins are handed over in a slice with spare capacity that holds two further coins of the
+	// caller's; the set must not adopt that storage
+	guardA, guardB := mk(coinSpec{V: 123456, C: 7}), mk(coinSpec{V: 654321, C: 9})
+	backing := append(append([]coinset.Coin{}, init...), guardA, guardB)
+	cs := coinset.NewCoinSet(backing[:len(init)])
+	twin := coinset.NewCoinSet(backing[:len(init)])
+	twin.PushCoin(mk(coinSpec{V: 5, C: 5}))
 	pushes, removalAfter2 := len(c.Initial), false
 	check := func(when string) error {
 		var tv, tva int64
@@ -343,6 +349,17 @@ func evalC19Hist(c c19Hist, o *Obs) error {
 		if err := check("after " + when); err != nil {
 			return err
 		}
+	}
+	if backing[len(init)] != coinset.Coin(guardA) || backing[len(init)+1] != coinset.Coin(guardB) {
+		return fmt.Errorf("the coin set wrote into the spare capacity of the slice it was created from (the caller's coins behind it were overwritten)")
+	}
+	for i := range init {
+		if backing[i] != init[i] {
+			return fmt.Errorf("the coin set modified the slice it was created from (element %d)", i)
+		}
+	}
+	if twin.Num() != len(init)+1 {
+		return fmt.Errorf("a second coin set created from the same slice has %d coins, want %d", twin.Num(), len(init)+1)
 	}
 	if removalAfter2 {
 		o.NT()
